@@ -261,3 +261,42 @@ func C06_BindForms() {
 	}
 	c06Run([]byte(src), false)
 }
+
+type C06Target struct {
+	Name  string
+	A     int
+	MaxA  int `bcl:"m_x"`
+	Inner struct{ X int }
+}
+
+// C06_UnmarshalNames: Unmarshal of a program whose block type, field and
+// nested block names are 1..3 symbolic identifier bytes (letters of both
+// cases, digit, underscore): a result or an error, never a panic.
+func C06_UnmarshalNames() {
+	n := 1 + verif.Choice("len", 2+verif.Tier())
+	id := verif.Bytes("id", n)
+	for i, c := range id {
+		verif.Assume(c == '_' || c == 'a' || c == 'A' || c == 'x' || (i > 0 && c == '1'))
+	}
+	name := string(id)
+	var src string
+	switch verif.Choice("where", 4) {
+	case 0: // field name
+		src = "def c06target \"n\" {\n " + name + " = 1\n}\nbind c06target -> struct\n"
+	case 1: // nested block type
+		src = "def c06target \"n\" {\n def " + name + " {\n x = 1\n }\n}\nbind c06target -> struct\n"
+	case 2: // block type itself
+		src = "def " + name + " \"n\" {\n a = 1\n}\nbind " + name + " -> struct\n"
+	case 3: // nested block name
+		src = "def c06target \"n\" {\n def inner \"" + name + "\" {\n x = 1\n }\n}\nbind c06target -> struct\n"
+	}
+	var t C06Target
+	out, log := &symio.Writer{}, &symio.Writer{}
+	err := bcl.Unmarshal([]byte(src), &t, bcl.OptOutput(out), bcl.OptLogger(log))
+	verif.Observe("err", err != nil)
+	if err != nil {
+		verif.Reach("error")
+	} else {
+		verif.Reach("bound")
+	}
+}
